@@ -848,7 +848,7 @@ theorem plan_termTime (c : Cfg) : ∃ x y, (plan c).termTime = (match (plan c).p
     | .initFailed | .evalFailed => y) := ⟨_, _, rfl⟩
 
 theorem plan_timers_nil (c : Cfg) (h : (plan c).started = []) : (plan c).timers = [] := by
-  obtain ⟨pass2, ph, hpt⟩ := plan_timers c
+  obtain ⟨pass1, pass2, ph, hpt⟩ := plan_timers c
   rw [hpt, h]
   simp [initTimers, putBlocksOf, armAll]
 
